@@ -139,7 +139,7 @@ func printReport(rep *FuncReport, verbose bool, dump string) bool {
 	return ok
 }
 
-func cmdCheck(args []string) int { fmt.Println("not implemented yet"); return 2 }
+
 
 func clip(s string, n int) string {
 	if len(s) > n {
